@@ -327,11 +327,12 @@ let ref_run_case (c : case) : string * bool =
     (match ref_run_init c.s0 with
      | None -> ("", false)
      | Some s0 ->
-       (match ref_run (Z.to_nat fuel) s0 (z_of_int 0) with
+       (match ref_run_t (Z.to_nat fuel) s0 (z_of_int 0) tmr0 [] with
         | None -> ("", false)
-        | Some RError -> ("resclass=err", true)
-        | Some (RFinished s1) ->
-          (Printf.sprintf "resclass=ok %s sum=%x msgs=%s con=%s" (fmt_state_tokens c s1) (int_of_z s1.ssum)
+        | Some RTError -> ("resclass=err", true)
+        | Some (RTFinished (s1, _, q)) ->
+          (Printf.sprintf "resclass=ok %s sum=%x q=%s msgs=%s con=%s" (fmt_state_tokens c s1) (int_of_z s1.ssum)
+             (String.concat "," (List.map (fun v -> Printf.sprintf "%x" (int_of_z v)) q))
              (String.concat "|" (List.map (fun m -> hex_of_string (fmt_msg m)) s1.cbus.b_msgs))
              (tohex_bytes (List.map int_of_z s1.console)), true)))
   | _ -> ("", false)
@@ -464,6 +465,12 @@ let () =
           | "entry" ->
             let (r, d) = ref_entry_case c in
             Printf.fprintf oc "R id=%s %s\nD id=%s %s\n" c.id r c.id d
+          | "tcp" ->
+            (* the bytes the send worker must put on the wire: every message escaped and newline-terminated (Run.escape) *)
+            let wire = List.concat_map (fun m ->
+                let txt = fmt_msg m in
+                escape (List.init (String.length txt) (fun i -> z_of_int (Char.code txt.[i])))) s1.cbus.b_msgs in
+            Printf.fprintf oc "R id=%s wire=%s\nD id=%s C18=1\n" c.id (tohex_bytes (List.map int_of_z wire)) c.id
           | "load" ->
             let (r, d) = ref_load c in
             Printf.fprintf oc "R id=%s %s\nD id=%s C11=%d C12=%d\n" c.id r c.id (if d then 1 else 0) (if d then 1 else 0)
